@@ -10,7 +10,7 @@ from .absint import Const, NodeV, NumV, Obj, Operand, Seq, StrV, Tmpl, Union, Un
 from .core import AnalysisError, Ctx, rule
 from .pyast import call_name, pyfacts, unparse
 from .relang import Lang, confirm
-from .rules_abs import rule_values, walk
+from .rules_abs import rule_values, site_name, walk
 from .textlang import NoLang, string_lang
 from .visitormodel import PARSER_REL
 
@@ -64,10 +64,13 @@ def g6(ctx: Ctx):
                         strs.append(y.conv[1][0])
                 for sv in strs:
                     for node in _text_sources(sv):
-                        # attribute the read to the visitor method of the rule that owns the node
+                        # attribute the read to the visitor method of the rule that owns the node; only objects that
+                        # this very visitor constructs are its responsibility (re-wrapped copies are derived values)
                         owner = _owner_rule(I, node)
                         key = f"visit_{owner}:{x.cls}.{f}"
                         if key in seen:
+                            continue
+                        if x.file != PARSER_REL or site_name(ctx, x) not in (f"visit_{owner}", f"visit_{r}"):
                             continue
                         seen.add(key)
                         terminal = I.peg.kind(node.expr) in ("regex", "literal") or I.peg.literal_set(node.expr) is not None
